@@ -303,6 +303,26 @@ theorem invert_Fn_plain (hn : Nat.Prime Spec.SM2.n) (x : Nat)
       Model.SM2.Fn.fromMontgomery x % Spec.SM2.n = 1 :=
   AddChainExp.invert_Fn_plain hn x hv
 
+/-- the four statements above with the primality hypotheses discharged (`Prime.p_prime`, `Prime.n_prime`: Pratt
+    certificates checked by a reflective checker proved sound from `lucas_primality`) -/
+theorem invert_Fp_spec_closed (x : Nat) (hx : x < Spec.SM2.p) :
+    Model.Field.invert Model.SM2.Fp x < Spec.SM2.p ∧
+    (x ≠ 0 → Model.SM2.Fp.mul (Model.Field.invert Model.SM2.Fp x) x = Model.SM2.Fp.setOne) ∧
+    (x = 0 → Model.Field.invert Model.SM2.Fp x = 0) := invert_Fp_spec Prime.p_prime x hx
+
+theorem invert_Fp_plain_closed (x : Nat) (hv : Model.SM2.Fp.fromMontgomery x ≠ 0) :
+    Model.SM2.Fp.fromMontgomery (Model.Field.invert Model.SM2.Fp x) *
+      Model.SM2.Fp.fromMontgomery x % Spec.SM2.p = 1 := invert_Fp_plain Prime.p_prime x hv
+
+theorem invert_Fn_spec_closed (x : Nat) (hx : x < Spec.SM2.n) :
+    Model.Field.invert Model.SM2.Fn x < Spec.SM2.n ∧
+    (x ≠ 0 → Model.SM2.Fn.mul (Model.Field.invert Model.SM2.Fn x) x = Model.SM2.Fn.setOne) ∧
+    (x = 0 → Model.Field.invert Model.SM2.Fn x = 0) := invert_Fn_spec Prime.n_prime x hx
+
+theorem invert_Fn_plain_closed (x : Nat) (hv : Model.SM2.Fn.fromMontgomery x ≠ 0) :
+    Model.SM2.Fn.fromMontgomery (Model.Field.invert Model.SM2.Fn x) *
+      Model.SM2.Fn.fromMontgomery x % Spec.SM2.n = 1 := invert_Fn_plain Prime.n_prime x hv
+
 /-- the chain executed on limbs by the generated `Square`/`Mul` (what the Go `Invert` does) keeps
     elements canonical and computes the model's `invert` -/
 theorem invert_limbs_Fp (x : List Nat) (hx : Canon Spec.SM2.p x) :
@@ -601,6 +621,10 @@ example := (invert_on_limbs _).2 exN
 #print axioms invert_Fp_plain
 #print axioms invert_Fn_spec
 #print axioms invert_Fn_plain
+#print axioms invert_Fp_spec_closed
+#print axioms invert_Fp_plain_closed
+#print axioms invert_Fn_spec_closed
+#print axioms invert_Fn_plain_closed
 #print axioms invert_limbs_Fp
 #print axioms invert_limbs_Fn
 #print axioms Fp_params
